@@ -90,7 +90,7 @@ func (s *Script) Assert(term string) {
 	if s.asserted == nil {
 		s.asserted = map[string]bool{}
 	}
-	if s.asserted[term] {
+	if s.asserted[term] && os.Getenv("GOVC_NODEDUP") == "" {
 		return // stated before: it is part of every prefix this line would belong to
 	}
 	s.asserted[term] = true
